@@ -569,9 +569,11 @@ impl Engine {
                     Err(false) => return,
                     Ok(k) => {
                         if k == DOT || k == DOTDOT {
-                            // mkdir "." / "..": statement silent
+                            // "." and ".." (and the empty name, which the library reads as ".") name
+                            // the directory itself / its parent, also in the root where no such
+                            // entries exist on disk: nothing may be created under those names
                             if res.is_ok() {
-                                self.aborted = true;
+                                self.violate("C07", "C07.result", "mkdir of a dot name", format!("make_dir_in_dir({:?}) succeeded: a directory entry named like the directory itself / its parent was created", name));
                             }
                             return;
                         }
@@ -949,10 +951,18 @@ impl Engine {
             }
             exp = Expect::ok();
         }
+        if target.is_none() && matches!(key_of(name), Ok(k) if k == DOT || k == DOTDOT) {
+            // "." / ".." / "" in the root: there is nothing of that name to open, and nothing may
+            // be created under it (it names the directory itself / its parent)
+            if res.is_ok() {
+                self.violate("C07", "C07.result", &format!("{} on a dot name in the root", Op::mode_name(mode)), format!("open_file_in_dir({:?}, {}) succeeded in the root directory: a file named like the directory itself / its parent now exists", name, Op::mode_name(mode)));
+            }
+            return;
+        }
         let (prop, rule) = if exp.errs == vec![Ek::TooManyOpenFiles] || (exp.ok && res.err() == Some(Ek::TooManyOpenFiles)) { ("C08", "C08.limit") } else { ("C07", "C07.result") };
         let Some(true) = self.check(prop, rule, &detail, res, &exp) else { return };
-        if key_of(name).is_err() || (target.is_none() && matches!(key_of(name), Ok(k) if k == DOT || k == DOTDOT)) {
-            self.aborted = true; // statement-silent name accepted ("." / ".." made in the root): cannot model further
+        if key_of(name).is_err() {
+            self.aborted = true; // statement-silent name accepted: cannot model further
             return;
         }
         let stamps = self.stamps();
